@@ -198,11 +198,41 @@ class RegModel:
             problems.append('missing element %r' % (e[4],))
         if problems:
             return problems
-        # identical values registered several times can be matched in more
-        # than one way; choose, for equal values, the assignment in sorted
-        # order (any valid answer admits it)
         def sortkey(e):
             return (-e[0], tuple(-p for p in e[1]))
+        # One object subscribed several times (under several keys or
+        # provided interfaces) can be matched with the expected entries in
+        # more than one way: the answer is right if SOME matching puts the
+        # keys in order and keeps subscription order within each (key,
+        # provided) bucket - the order between different provided
+        # interfaces under one key is free.  Decide that exactly (the greedy
+        # matching below only words the message).
+        buckets = {}
+        for e in exp:
+            buckets.setdefault((sortkey(e), id(e[2])), []).append(e)
+        bkeys = sorted(buckets, key=lambda k: k[0])
+        for k in bkeys:
+            buckets[k].sort(key=lambda e: e[3])
+        seen_states = set()
+
+        def search(i, ptrs, last):
+            if i == len(result):
+                return True
+            state = (i, ptrs, last)
+            if state in seen_states:
+                return False
+            seen_states.add(state)
+            for bi, k in enumerate(bkeys):
+                p_ = ptrs[bi]
+                if p_ < len(buckets[k]) and buckets[k][p_][4] is result[i] \
+                        and (last is None or k[0] >= last):
+                    if search(i + 1, ptrs[:bi] + (p_ + 1,) + ptrs[bi + 1:],
+                              k[0]):
+                        return True
+            return False
+
+        if search(0, tuple(0 for _ in bkeys), None):
+            return []
         groups = {}
         for k, e in enumerate(matched):
             groups.setdefault(id(e[4]), []).append(k)
